@@ -364,6 +364,26 @@ func templates(k *chain.Keys) []template {
 			}
 			return chain.Use{}, false
 		}, func(path string) bool { return strings.HasSuffix(path, ".FileContract.Payout.Lo+1") || strings.HasSuffix(path, ".FileContract.Payout.Hi+1") }},
+		{"v1 contract revision handing the contract over to new unlock conditions", func(w *chain.World) (chain.Use, bool) {
+			if w.ChildHeight() >= w.Net.HardforkV2.RequireHeight {
+				return chain.Use{}, false
+			}
+			for _, id := range chain.SortedIDs(w.Store.FC) {
+				e := w.Store.FC[types.FileContractID(id)]
+				if e.FileContract.WindowStart >= w.ChildHeight() && e.FileContract.UnlockHash == k.ContractUC().UnlockHash() {
+					// the CURRENT owners (parent's unlock conditions) sign a revision that names a new owner
+					next := e.FileContract
+					next.ValidProofOutputs = append([]types.SiacoinOutput(nil), next.ValidProofOutputs...)
+					next.MissedProofOutputs = append([]types.SiacoinOutput(nil), next.MissedProofOutputs...)
+					next.RevisionNumber++
+					next.UnlockHash = k.StdUC(3).UnlockHash()
+					t := types.Transaction{FileContractRevisions: []types.FileContractRevision{{ParentID: e.ID, UnlockConditions: k.ContractUC(), FileContract: next}}}
+					w.SignV1Whole(&t)
+					return chain.Use{Name: "v1revise-handoff", V1: &t, SuppFC: []types.FileContractElement{e}}, true
+				}
+			}
+			return chain.Use{}, false
+		}, func(path string) bool { return strings.HasSuffix(path, ".FileContract.Payout.Lo+1") || strings.HasSuffix(path, ".FileContract.Payout.Hi+1") }},
 		{"v1 foundation update", func(w *chain.World) (chain.Use, bool) {
 			if w.ChildHeight() >= w.Net.HardforkV2.RequireHeight || w.ChildHeight() < w.Net.HardforkFoundation.Height || w.CS.FoundationSubsidyAddress != k.Addr(chain.AddrFnd) {
 				return chain.Use{}, false
@@ -772,6 +792,19 @@ func probeTemplate(c *vf.Ctx, w *chain.World, tp template) {
 	}
 	if u.V1 != nil {
 		t := u.V1
+		for i := range t.FileContractRevisions {
+			// hijack: a third party proposes ITS unlock conditions as the contract's new owner and presents the same
+			// conditions as authorisation, signed with its own key (the parent's owners sign nothing)
+			r := &t.FileContractRevisions[i]
+			oldRev, oldSigs := *r, t.Signatures
+			att := w.Keys.StdUC(3)
+			r.FileContract.UnlockHash = att.UnlockHash()
+			r.UnlockConditions = att
+			t.Signatures = nil
+			signV1With(w, t, types.Hash256(r.ParentID), []int{3}, []uint64{0}, types.CoveredFields{WholeTransaction: true}, 0)
+			check("revision authorised only by the unlock conditions it proposes")
+			*r, t.Signatures = oldRev, oldSigs
+		}
 		if len(t.Signatures) > 0 {
 			old := append([]types.TransactionSignature(nil), t.Signatures...)
 			t.Signatures = append(append([]types.TransactionSignature(nil), old...), types.TransactionSignature{ParentID: old[0].ParentID, PublicKeyIndex: 0, CoveredFields: types.CoveredFields{WholeTransaction: true}, Signature: make([]byte, 64)})
